@@ -272,9 +272,8 @@ impl Repr {
             return Ok(());
         } else {
             // We need to create a new buffer because the current buffer is shared with others.
-            let str = heap.as_str();
-            let additional = new_capacity - str.len();
-            let new_heap = HeapBuffer::with_additional(str, additional)?;
+            // The new buffer has exactly `new_capacity` (not an amortized one).
+            let new_heap = HeapBuffer::with_exact_capacity(heap.as_str(), new_capacity)?;
             Repr::from_heap(new_heap)
         };
 
